@@ -94,6 +94,15 @@ def r2_helper(prog, rep: Report, fam: Family):
         if helper not in seen:
             seen.add(helper)
             rep.fn(helper)
+            fid = fam.foreign_identity.get(c.qual)
+            if fid is not None:
+                f_open, st = fid
+                rep.viol("C18.R2", f_open, "owner-identity", f"open() records the owner as `{src(st.value)}`, not as os.getpid(): two processes "
+                         "can carry the same identity (every child made by plain os.fork() keeps the parent's multiprocessing name), so "
+                         "the re-open test cannot tell them apart",
+                         scenario="pid = os.fork(); the child reads through the inherited handle: parent and child share one file offset",
+                         line=st.lineno)
+                continue
             foreign = fam.reopen_foreign_compare.get(c.qual)
             if foreign is not None:
                 cmp_, other = foreign
@@ -109,6 +118,45 @@ def r2_helper(prog, rep: Report, fam: Family):
                 continue
             seen.add(f)
             rep.fn(f)
+            if want_open:
+                # a new open file description: the handle is made from the path, never from a descriptor (dup() / fdopen() / an int
+                # argument share the file offset with the process the descriptor came from)
+                stores: Dict[str, set] = {}
+                for k_ in c.repo_mro():
+                    if k_.is_external:
+                        continue
+                    for g_ in k_.methods.values():
+                        if g_.self_name is None:
+                            continue
+                        for n_ in ast.walk(g_.node):
+                            if isinstance(n_, ast.Attribute) and isinstance(n_.ctx, ast.Store) and isinstance(n_.value, ast.Name) \
+                                    and n_.value.id == g_.self_name:
+                                stores.setdefault(n_.attr, set()).add(g_.name)
+                bad_src = []
+                for cl_ in calls_in(f.node):
+                    en = ext_name(prog, f, cl_)
+                    if en in ("open", "io.open") and cl_.args:
+                        a0 = cl_.args[0]
+                        d0 = dotted(a0)
+                        is_cfg = bool(d0) and len(d0) == 2 and d0[0] == f.self_name \
+                            and stores.get(d0[1]) == {"__init__"}
+                        if not is_cfg:
+                            bad_src.append((cl_.lineno, f"`{src(cl_)[:70]}` does not open the path stored by the constructor"))
+                    if en in ("os.dup", "os.dup2", "os.fdopen"):
+                        bad_src.append((cl_.lineno, f"`{src(cl_)[:70]}` re-uses an existing descriptor"))
+                helper_ = fam.reopen[c.qual]
+                for cl_ in calls_in(helper_.node):
+                    if ext_name(prog, helper_, cl_) in ("os.dup", "os.dup2", "os.fdopen") or \
+                            (isinstance(cl_.func, ast.Attribute) and cl_.func.attr == "fileno"):
+                        bad_src.append((cl_.lineno, f"the re-open helper derives the new handle from the inherited one (`{src(cl_)[:60]}`)"))
+                if bad_src:
+                    ln_, why_ = sorted(set(bad_src))[0]
+                    rep.viol("C18.R2", f, "open:from-path", why_ + ": a duplicated descriptor shares its file offset with the process it "
+                             "was inherited from",
+                             scenario="parent and forked child seek and read through descriptors of one open file description: the "
+                                      "seeks interleave", line=ln_)
+                else:
+                    rep.ok("C18.R2", f, "open:from-path", "every handle is opened from the path the constructor stored")
             client = _OpenRecords(prog, f, fam.handles[c.qual], pid, want_open)
             it = Interp(prog, client)
             ex = it.run(f, {(False, False)}, c)
